@@ -1,7 +1,8 @@
 //! C07 — CRDT merge laws.  Correspondence: real `ReplicatedValue::merge` vs model `RV.merge`
 //! on generated pairs (incl. merges of merges).  Oracle: idempotence / commutativity /
 //! associativity evaluated directly on the real values.
-use crate::enc::{MCrdt, MLww, MRv};
+use crate::enc::{hex, show_crdt, smap_text, vclock_from, vclock_map, MCrdt, MLww, MRv};
+use redis_sim::replication::lattice::{LamportClock, VectorClock};
 use crate::out::Out;
 use crate::rng::Rng;
 use crate::Args;
@@ -92,7 +93,10 @@ pub fn reachable_pool(rng: &mut Rng, steps: usize, out: &mut Out) -> Vec<Replica
         }
     }
     for nd in &nodes {
-        for v in nd.replicated_keys.values() {
+        // (sorted: the pool order decides later random picks, and a HashMap's order is per-process)
+        let mut kv: Vec<(&String, &ReplicatedValue)> = nd.replicated_keys.iter().collect();
+        kv.sort_by(|a, b| a.0.cmp(b.0));
+        for (_, v) in kv {
             pool.push(v.clone());
         }
     }
@@ -245,6 +249,9 @@ fn check_triple(out: &mut Out, a: &ReplicatedValue, b: &ReplicatedValue, c: &Rep
     let bc = emit_merge(out, b, c);
     let ab_c = emit_merge(out, &ab, c);
     let a_bc = emit_merge(out, a, &bc);
+    // every accessor of every operand / result (correspondence), and the laws once more through
+    // the accessors alone
+    let acc: Vec<String> = [a, &ab, &ba, &aa, &ab_c, &a_bc].iter().map(|v| emit_accessors(out, v)).collect();
     let (mab, mba, maa) = (MRv::from_real(&ab), MRv::from_real(&ba), MRv::from_real(&aa));
     let (mab_c, ma_bc) = (MRv::from_real(&ab_c), MRv::from_real(&a_bc));
 
@@ -279,6 +286,13 @@ fn check_triple(out: &mut Out, a: &ReplicatedValue, b: &ReplicatedValue, c: &Rep
             out.count("excluded:tie-inconsistent-pair");
         }
     }
+    // … seen through the public accessors only (what a client or a peer can call)
+    if ma.wf() && acc[3] != acc[0] && maa == ma {
+        out.violation("C07:accessor:idem", "merge(a,a) shows something else than a through a public accessor although the values are equal", json!({"a": ma.show(), "accessors(a)": acc[0], "accessors(merge(a,a))": acc[3]}));
+    }
+    if ma.wf() && mb.wf() && ma.tie_ok(&mb) && acc[1] != acc[2] && mab == mba {
+        out.violation("C07:accessor:comm", "merge(a,b) and merge(b,a) are equal values but differ through a public accessor", json!({"a": ma.show(), "b": mb.show()}));
+    }
     if ma.wf() && mb.wf() && mc.wf() && mab_c != ma_bc {
         let same = ma.crdt.kind() == mb.crdt.kind() && mb.crdt.kind() == mc.crdt.kind();
         out.violation(&format!("C07:assoc:{}:{}", if same { "same-kind" } else { "cross-kind" }, diff_fields(&mab_c, &ma_bc)),
@@ -295,10 +309,486 @@ fn witness_cross_kind(out: &mut Out) {
     check_triple(out, &d1.value, &d2.value, &d3.value, "corpus:HSET;SET;HSET on one replica");
 }
 
+
+// ---------------------------------------------------------------------------------------------
+// everything the three files expose: accessors, stand-alone merges, comparisons, mutators
+// ---------------------------------------------------------------------------------------------
+
+/// every public accessor of the REAL value (replica universe 1..3, `FIELDS`, `ELEMS`) — the same
+/// text the model's `Driver.C07.accessors` prints from its own definitions
+fn accessors_real(rv: &ReplicatedValue) -> String {
+    let ob = |o: Option<&SDS>| o.map(|s| hex(s.as_bytes())).unwrap_or("~".into());
+    let lww = match rv.lww() {
+        Some(r) => format!("{} {} {} {}", r.value.as_ref().map(|s| hex(s.as_bytes())).unwrap_or("~".into()), r.timestamp.time, r.timestamp.replica_id.0, r.tombstone as u8),
+        None => "-".into(),
+    };
+    let hget = FIELDS.iter().map(|f| ob(rv.hash_get(f))).collect::<Vec<_>>().join(",");
+    let hash = rv.get_hash().map(|h| h.len().to_string()).unwrap_or("-".into());
+    let gc = match rv.crdt.as_gcounter() {
+        Some(g) => format!("{},{},{};{};{}", g.get_replica_count(&ReplicaId(1)), g.get_replica_count(&ReplicaId(2)), g.get_replica_count(&ReplicaId(3)), g.value(), g.is_empty() as u8),
+        None => "-".into(),
+    };
+    let pn = match rv.crdt.as_pncounter() {
+        Some(p) => format!("{};{}", p.value(), p.is_empty() as u8),
+        None => "-".into(),
+    };
+    let gs = match rv.crdt.as_gset() {
+        Some(s) => format!("{};{};{}", s.len(), s.is_empty() as u8, ELEMS.iter().map(|e| (s.contains(&e.to_string()) as u8).to_string()).collect::<Vec<_>>().join(",")),
+        None => "-".into(),
+    };
+    let os = match rv.crdt.as_orset() {
+        Some(o) => format!(
+            "{};{};{}",
+            o.len(),
+            o.is_empty() as u8,
+            ELEMS
+                .iter()
+                .map(|e| {
+                    let tags = match o.get_tags(&e.to_string()) {
+                        Some(t) => {
+                            let mut c: Vec<u128> = t.iter().map(|t| ((t.replica_id.0 as u128) << 64) | t.sequence as u128).collect();
+                            c.sort();
+                            c.iter().map(|x| x.to_string()).collect::<Vec<_>>().join("+")
+                        }
+                        None => "~".into(),
+                    };
+                    format!("{}:{}", o.contains(&e.to_string()) as u8, tags)
+                })
+                .collect::<Vec<_>>()
+                .join(",")
+        ),
+        None => "-".into(),
+    };
+    let vc = match &rv.vector_clock {
+        Some(v) => format!("{},{},{}", v.get(&ReplicaId(1)), v.get(&ReplicaId(2)), v.get(&ReplicaId(3))),
+        None => "-".into(),
+    };
+    let on = |o: Option<u64>| o.map(|x| x.to_string()).unwrap_or("-".into());
+    format!(
+        "get={} tomb={} type={} islww={} ishash={} lww={} hget={} hash={} gc={} pn={} gs={} os={} vc={} exp={} stamp={}.{} rf={} rf3={}",
+        ob(rv.get()),
+        rv.is_tombstone() as u8,
+        rv.crdt_type(),
+        rv.crdt.is_lww() as u8,
+        rv.is_hash() as u8,
+        lww,
+        hget,
+        hash,
+        gc,
+        pn,
+        gs,
+        os,
+        vc,
+        on(rv.expiry_ms),
+        rv.timestamp.time,
+        rv.timestamp.replica_id.0,
+        on(rv.replication_factor.map(|x| x as u64)),
+        rv.get_replication_factor(3)
+    )
+}
+
+fn emit_accessors(out: &mut Out, rv: &ReplicatedValue) -> String {
+    let a = accessors_real(rv);
+    out.op(format!("A {}", MRv::from_real(rv).show()), a.clone());
+    // internal consistency of the accessors of ONE value (no model involved)
+    if let Some(s) = rv.crdt.as_gset() {
+        if s.elements().count() != s.len() || s.is_empty() != (s.len() == 0) {
+            out.violation("C07:accessor:gset-inconsistent", "GSet::elements / len / is_empty disagree on one value", json!({"value": MRv::from_real(rv).show()}));
+        }
+    }
+    if let Some(o) = rv.crdt.as_orset() {
+        if o.elements().count() != o.len() || o.elements().any(|e| !o.contains(e)) {
+            out.violation("C07:accessor:orset-inconsistent", "ORSet::elements / len / contains disagree on one value", json!({"value": MRv::from_real(rv).show()}));
+        }
+    }
+    a
+}
+
+fn stamp_text(c: &LamportClock) -> String {
+    format!("{} {}", c.time, c.replica_id.0)
+}
+
+/// CrdtValue level, vector clocks, Lamport clocks, mutators, constructors
+#[allow(deprecated)]
+fn lattice_api(out: &mut Out, rng: &mut Rng, pool: &[(ReplicatedValue, &'static str)]) {
+    // C: try_merge / deprecated merge / merge_with_timestamps / the lattice's own ==
+    for _ in 0..6 {
+        let a = &pool[rng.below(pool.len() as u64) as usize].0;
+        let same: Vec<usize> = (0..pool.len()).filter(|j| MRv::from_real(&pool[*j].0).crdt.kind() == MRv::from_real(a).crdt.kind()).collect();
+        let b = if rng.chance(2, 3) { &pool[*rng.pick(&same)].0 } else { &pool[rng.below(pool.len() as u64) as usize].0 };
+        for (x, y) in [(a, b), (b, a)] {
+            let t = match x.crdt.try_merge(&y.crdt) {
+                Ok(m) => format!("ok {}", show_crdt(&m)),
+                Err(e) => format!("err {} {}", e.self_type, e.other_type),
+            };
+            let dep = x.crdt.merge(&y.crdt);
+            let mwt = x.crdt.merge_with_timestamps(&y.crdt, &x.timestamp, &y.timestamp);
+            let eq = match (&x.crdt, &y.crdt) {
+                (CrdtValue::GCounter(p), CrdtValue::GCounter(q)) => ((p == q) as u8).to_string(),
+                (CrdtValue::PNCounter(p), CrdtValue::PNCounter(q)) => ((p == q) as u8).to_string(),
+                (CrdtValue::GSet(p), CrdtValue::GSet(q)) => ((p == q) as u8).to_string(),
+                (CrdtValue::ORSet(p), CrdtValue::ORSet(q)) => ((p == q) as u8).to_string(),
+                _ => "-".into(),
+            };
+            out.op(format!("C {} | {}", MRv::from_real(x).show(), MRv::from_real(y).show()), format!("try={} | dep={} | mwt={} | eq={}", t, show_crdt(&dep), show_crdt(&mwt), eq));
+            out.count("api:crdt-level");
+        }
+        // oracle: the deprecated merge is commutative in what it exposes only within one kind
+        let (ma, mb) = (MRv::from_real(a), MRv::from_real(b));
+        if ma.wf() && mb.wf() && ma.tie_ok(&mb) {
+            let (d1, d2) = (show_crdt(&a.crdt.merge(&b.crdt)), show_crdt(&b.crdt.merge(&a.crdt)));
+            if d1 != d2 {
+                let same = ma.crdt.kind() == mb.crdt.kind();
+                out.violation(
+                    &format!("C07:comm:deprecated-crdt-merge:{}", if same { "same-kind" } else { "cross-kind" }),
+                    "the deprecated CrdtValue::merge(a,b) != merge(b,a) (on a type mismatch it keeps self)",
+                    json!({"a": ma.show(), "b": mb.show(), "merge(a,b)": d1, "merge(b,a)": d2}),
+                );
+            }
+            // try_merge of one kind is commutative
+            if ma.crdt.kind() == mb.crdt.kind() {
+                let t1 = a.crdt.try_merge(&b.crdt).ok().map(|m| show_crdt(&m));
+                let t2 = b.crdt.try_merge(&a.crdt).ok().map(|m| show_crdt(&m));
+                if t1 != t2 || t1.is_none() {
+                    out.violation("C07:comm:try-merge:same-kind", "try_merge(a,b) != try_merge(b,a) for two tie-consistent values of one kind", json!({"a": ma.show(), "b": mb.show()}));
+                }
+            }
+        }
+    }
+    // V: vector clocks (zero entries, disjoint replicas, equal, dominated)
+    for _ in 0..4 {
+        let ma = small_map(rng);
+        let mb = match rng.below(4) {
+            0 => ma.clone(),
+            1 => {
+                let mut m = ma.clone();
+                m.insert(rng.range(1, 3), rng.below(5));
+                m
+            }
+            _ => small_map(rng),
+        };
+        let (Some(a), Some(b)) = (vclock_from(&ma), vclock_from(&mb)) else { continue };
+        let m = a.merge(&b);
+        let ans = format!(
+            "{} hb={}{} conc={} eq={} get={},{},{}",
+            vclock_map(&m).map(|x| smap_text(&x)).unwrap_or("?".into()),
+            a.happens_before(&b) as u8,
+            b.happens_before(&a) as u8,
+            a.concurrent_with(&b) as u8,
+            (a == b) as u8,
+            m.get(&ReplicaId(1)),
+            m.get(&ReplicaId(2)),
+            m.get(&ReplicaId(3))
+        );
+        out.op(format!("V {} | {}", smap_text(&ma), smap_text(&mb)), ans);
+        out.count("api:vclock");
+        // oracle: merge laws and order laws on the real clocks
+        let c = vclock_from(&small_map(rng)).unwrap_or_default();
+        let vm = |x: &VectorClock| vclock_map(x);
+        if vm(&a.merge(&b)) != vm(&b.merge(&a)) || vm(&a.merge(&a)) != vm(&a) || vm(&a.merge(&b.merge(&c))) != vm(&a.merge(&b).merge(&c)) {
+            out.violation("C07:vclock:merge-law", "VectorClock::merge is not idempotent / commutative / associative on these clocks", json!({"a": smap_text(&ma), "b": smap_text(&mb)}));
+        }
+        // an operand happens before the merge or equals it (ties comparison to merge)
+        let le = |x: &VectorClock, y: &VectorClock| x == y || x.happens_before(y);
+        if (a.happens_before(&b) && b.happens_before(&a)) || a.happens_before(&a) || a.concurrent_with(&b) != b.concurrent_with(&a) || m.happens_before(&a) || m.happens_before(&b) || !le(&a, &m) || !le(&b, &m) {
+            out.violation("C07:vclock:order-law", "happens_before / concurrent_with violate irreflexivity, asymmetry, symmetry or 'an operand never exceeds the merge'", json!({"a": smap_text(&ma), "b": smap_text(&mb)}));
+        }
+    }
+    // K: Lamport clocks incl. ties and equal stamps
+    for _ in 0..3 {
+        let a = LamportClock { time: rng.below(4), replica_id: ReplicaId(rng.range(1, 3)) };
+        let b = if rng.chance(1, 4) { a } else { LamportClock { time: rng.below(4), replica_id: ReplicaId(rng.range(1, 3)) } };
+        let cmp = match a.cmp(&b) {
+            std::cmp::Ordering::Less => 0,
+            std::cmp::Ordering::Equal => 1,
+            std::cmp::Ordering::Greater => 2,
+        };
+        let mut u = a;
+        u.update(&b);
+        let mut t = a;
+        let ticked = t.tick();
+        out.op(
+            format!("K {} | {}", stamp_text(&a), stamp_text(&b)),
+            format!("cmp={} merge={} update={} tick={} max={}", cmp, stamp_text(&a.merge(&b)), stamp_text(&u), stamp_text(&ticked), stamp_text(&std::cmp::max(a, b))),
+        );
+        out.count("api:clock");
+        if a.partial_cmp(&b) != Some(a.cmp(&b)) || (a == b) != (cmp == 1) || t != ticked {
+            out.violation("C07:clock:ord-inconsistent", "PartialOrd / Ord / PartialEq of LamportClock disagree, or tick() does not return the ticked clock", json!({"a": stamp_text(&a), "b": stamp_text(&b)}));
+        }
+    }
+    // U: mutators on pool values of the matching kind; value-level mutators on any value
+    for _ in 0..8 {
+        let base = pool[rng.below(pool.len() as u64) as usize].0.clone();
+        let text = MRv::from_real(&base).show();
+        let r = rng.range(1, 3);
+        let e = rng.pick(&ELEMS).to_string();
+        let he = hex(e.as_bytes());
+        let mut v = base.clone();
+        let done: Option<(String, String)> = match (&mut v.crdt, rng.below(3)) {
+            (CrdtValue::GCounter(g), _) => {
+                let n = rng.below(4);
+                if n == 1 { g.increment(ReplicaId(r)) } else { g.increment_by(ReplicaId(r), n) }
+                Some((format!("U ginc {} {} {}", text, r, n), String::new()))
+            }
+            (CrdtValue::PNCounter(p), k) => {
+                let n = rng.below(4);
+                if k == 0 {
+                    if n == 1 { p.decrement(ReplicaId(r)) } else { p.decrement_by(ReplicaId(r), n) }
+                    Some((format!("U pdec {} {} {}", text, r, n), String::new()))
+                } else {
+                    if n == 1 { p.increment(ReplicaId(r)) } else { p.increment_by(ReplicaId(r), n) }
+                    Some((format!("U pinc {} {} {}", text, r, n), String::new()))
+                }
+            }
+            (CrdtValue::GSet(s), _) => {
+                let new = s.add(e.clone());
+                Some((format!("U sadd {} {}", text, he), format!(" new={}", new as u8)))
+            }
+            (CrdtValue::ORSet(o), 0) => {
+                let t = o.add(e.clone(), ReplicaId(r));
+                Some((format!("U oadd {} {} {}", text, he, r), format!(" tag={}", ((t.replica_id.0 as u128) << 64) | t.sequence as u128)))
+            }
+            (CrdtValue::ORSet(o), 1) => {
+                let t = o.remove(&e);
+                let mut c: Vec<u128> = t.iter().map(|t| ((t.replica_id.0 as u128) << 64) | t.sequence as u128).collect();
+                c.sort();
+                Some((format!("U orem {} {}", text, he), format!(" tags={}", c.iter().map(|x| x.to_string()).collect::<Vec<_>>().join("+"))))
+            }
+            (CrdtValue::ORSet(o), _) => {
+                // remove some of the element's tags (and one it does not have)
+                let have: Vec<redis_sim::replication::lattice::UniqueTag> = o.get_tags(&e).map(|t| t.iter().cloned().collect()).unwrap_or_default();
+                let mut rm: std::collections::HashSet<redis_sim::replication::lattice::UniqueTag> = have.iter().filter(|_| rng.chance(2, 3)).cloned().collect();
+                rm.insert(redis_sim::replication::lattice::UniqueTag::new(ReplicaId(3), 77));
+                o.apply_remove(&e, &rm);
+                let mut c: Vec<u128> = rm.iter().map(|t| ((t.replica_id.0 as u128) << 64) | t.sequence as u128).collect();
+                c.sort();
+                Some((format!("U oapp {} {} {} {}", text, he, c.len(), c.iter().map(|x| x.to_string()).collect::<Vec<_>>().join(" ")), String::new()))
+            }
+            _ => None,
+        };
+        if let Some((line, extra)) = done {
+            out.op(line, format!("{}{}", MRv::from_real(&v).show(), extra));
+            out.count("api:lattice-mutator");
+            // a counter / set mutator is inflationary for the state merge — except ORSet::remove / apply_remove
+            let grown = MRv::from_real(&base.merge(&v));
+            let is_removal = matches!(base.crdt, CrdtValue::ORSet(_)) && MRv::from_real(&v) != grown;
+            if MRv::from_real(&v).wf() && MRv::from_real(&base).wf() && grown != MRv::from_real(&v) && !is_removal {
+                out.violation("C07:mutator:not-inflationary", "merge(old, op(old)) != op(old) for a counter / set mutator (other than an OR-set removal)", json!({"old": text, "new": MRv::from_real(&v).show()}));
+            }
+            if is_removal {
+                out.count("api:orset-removal-undone-by-state-merge");
+            }
+        }
+        // value-level mutators
+        let mut v = base.clone();
+        let mut clock = LamportClock { time: rng.below(6), replica_id: ReplicaId(r) };
+        let c0 = stamp_text(&clock);
+        let f = rng.pick(&FIELDS[..3]).to_string();
+        let pv = payload(rng);
+        let (line, extra) = match rng.below(5) {
+            0 => {
+                let mut vc = if rng.chance(1, 2) { vclock_from(&small_map(rng)) } else { None };
+                let vct = vc.as_ref().and_then(vclock_map).map(|m| format!("V {}", smap_text(&m))).unwrap_or("-".into());
+                v.set(SDS::new(pv.clone()), &mut clock, vc.as_mut());
+                (format!("U set {} {} {} {}", text, hex(&pv), c0, vct), format!(" clock={} vc={}", stamp_text(&clock), vc.as_ref().and_then(vclock_map).map(|m| smap_text(&m)).unwrap_or("-".into())))
+            }
+            1 => {
+                v.delete(&mut clock);
+                (format!("U del {} {}", text, c0), format!(" clock={}", stamp_text(&clock)))
+            }
+            2 => {
+                v.hash_set(f.clone(), SDS::new(pv.clone()), &mut clock);
+                (format!("U hset {} {} {} {}", text, hex(f.as_bytes()), hex(&pv), c0), format!(" clock={}", stamp_text(&clock)))
+            }
+            3 => {
+                v.hash_delete(&f, &mut clock);
+                (format!("U hdel {} {} {}", text, hex(f.as_bytes()), c0), format!(" clock={}", stamp_text(&clock)))
+            }
+            _ => {
+                let n = rng.range(0, 7) as u8;
+                v = v.with_replication_factor(n);
+                (format!("U rf {} {}", text, n), String::new())
+            }
+        };
+        out.op(line, format!("{}{}", MRv::from_real(&v).show(), extra));
+        out.count("api:value-mutator");
+        emit_accessors(out, &v);
+    }
+    // vector clock increment, constructors
+    {
+        let m = small_map(rng);
+        if let Some(mut v) = vclock_from(&m) {
+            let r = rng.range(1, 3);
+            v.increment(ReplicaId(r));
+            out.op(format!("U vinc {} {}", smap_text(&m), r), vclock_map(&v).map(|x| smap_text(&x)).unwrap_or("?".into()));
+        }
+        let r = rng.range(1, 3);
+        let rid = ReplicaId(r);
+        let ctor: Vec<(&str, ReplicatedValue)> = vec![
+            ("rv", ReplicatedValue::new(rid)),
+            ("lww", ReplicatedValue::with_crdt(CrdtValue::new_lww(rid), rid)),
+            ("gcounter", ReplicatedValue::with_crdt(CrdtValue::new_gcounter(), rid)),
+            ("pncounter", ReplicatedValue::with_crdt(CrdtValue::new_pncounter(), rid)),
+            ("gset", ReplicatedValue::with_crdt(CrdtValue::new_gset(), rid)),
+            ("orset", ReplicatedValue::with_crdt(CrdtValue::new_orset(), rid)),
+            ("hash", ReplicatedValue::with_crdt(CrdtValue::new_hash(), rid)),
+        ];
+        for (k, v) in ctor {
+            out.op(format!("U new {} {}", k, r), MRv::from_real(&v).show());
+            emit_accessors(out, &v);
+        }
+        out.count("api:constructors");
+    }
+}
+
+/// every `pub fn` / trait impl of the three anchored files, from the source the binary was built
+/// against, and how this harness drives it
+fn coverage(out: &mut Out) {
+    use crate::c06msg::{non_test, read_src, repo_dir, scan_pub_fns};
+    let mut table: BTreeMap<String, String> = BTreeMap::new();
+    let files: [(&str, &[&str]); 3] = [
+        ("src/replication/lattice.rs", &["ReplicaId", "LamportClock", "LwwRegister", "VectorClock", "GCounter", "PNCounter", "GSet", "UniqueTag", "ORSet"]),
+        ("src/replication/state/crdt_value.rs", &["CrdtValue"]),
+        ("src/replication/state/replicated_value.rs", &["ReplicatedValue"]),
+    ];
+    let how = |ty: &str, f: &str| -> Option<&'static str> {
+        Some(match (ty, f) {
+            (_, "verify_invariants") | (_, "verify_hash_invariants") => "debug-only (empty in release builds)",
+            ("ReplicaId", "new") | ("UniqueTag", "new") => "constructor used by every generator",
+            ("LamportClock", "new") => "driven: U new (the stamp of a fresh value)",
+            ("LamportClock", "tick") | ("LamportClock", "update") | ("LamportClock", "merge") => "driven: K lines (model Stamp.tick / update / mergeClock)",
+            ("LamportClock", "Ord") | ("LamportClock", "PartialOrd") => "driven: K lines (cmp, max) incl. ties and equal stamps",
+            ("LwwRegister", "new") | ("LwwRegister", "with_value") => "driven: U new / RV.withValue; register fields read by every A line",
+            ("LwwRegister", "set") | ("LwwRegister", "delete") => "driven: U set / del / hset / hdel (through ReplicatedValue) and every reachable pool",
+            ("LwwRegister", "merge") => "driven: M and C lines on Lww / Hash values (model Lww.merge)",
+            ("LwwRegister", "get") => "driven: A lines (get=, hget=)",
+            ("VectorClock", "new") => "Default / new: driven through U set with a fresh clock",
+            ("VectorClock", "increment") => "driven: U vinc, U set with a vector clock",
+            ("VectorClock", "get") => "driven: A lines (vc=), V lines (get=)",
+            ("VectorClock", "merge") | ("VectorClock", "happens_before") | ("VectorClock", "concurrent_with") | ("VectorClock", "PartialEq") => "driven: V lines (model VClock.merge / happensBefore / concurrentWith / eq) + order-law oracle",
+            ("GCounter", "new") | ("PNCounter", "new") | ("GSet", "new") | ("ORSet", "new") => "driven: U new <kind>",
+            ("GCounter", "increment") | ("GCounter", "increment_by") => "driven: U ginc (n = 1 → increment)",
+            ("GCounter", "value") | ("GCounter", "get_replica_count") | ("GCounter", "is_empty") => "driven: A lines (gc=)",
+            ("GCounter", "merge") | ("PNCounter", "merge") | ("GSet", "merge") | ("ORSet", "merge") => "driven: M and C lines on values of that kind",
+            ("GCounter", "PartialEq") | ("PNCounter", "PartialEq") | ("GSet", "PartialEq") | ("ORSet", "PartialEq") => "driven: C lines (eq=)",
+            ("GCounter", "Eq") | ("PNCounter", "Eq") | ("GSet", "Eq") | ("ORSet", "Eq") => "marker trait",
+            ("PNCounter", "increment") | ("PNCounter", "increment_by") => "driven: U pinc",
+            ("PNCounter", "decrement") | ("PNCounter", "decrement_by") => "driven: U pdec",
+            ("PNCounter", "value") | ("PNCounter", "is_empty") => "driven: A lines (pn=)",
+            ("GSet", "add") => "driven: U sadd (return value compared)",
+            ("GSet", "contains") | ("GSet", "len") | ("GSet", "is_empty") => "driven: A lines (gs=)",
+            ("GSet", "elements") | ("ORSet", "elements") => "driven: accessor-consistency oracle (elements vs len vs contains) on every A line",
+            ("GSet", "Default") | ("ORSet", "Default") | ("VectorClock", "Default") | ("GCounter", "Default") | ("PNCounter", "Default") => "= new()",
+            ("ORSet", "add") => "driven: U oadd (tag compared)",
+            ("ORSet", "remove") => "driven: U orem (returned tags compared)",
+            ("ORSet", "apply_remove") => "driven: U oapp",
+            ("ORSet", "contains") | ("ORSet", "len") | ("ORSet", "is_empty") | ("ORSet", "get_tags") => "driven: A lines (os=)",
+            ("CrdtValue", "new_lww") | ("CrdtValue", "new_gcounter") | ("CrdtValue", "new_pncounter") | ("CrdtValue", "new_gset") | ("CrdtValue", "new_orset") | ("CrdtValue", "new_hash") => "driven: U new <kind>",
+            ("CrdtValue", "try_merge") | ("CrdtValue", "merge_with_timestamps") | ("CrdtValue", "merge") => "driven: C lines (try= / mwt= / dep=); the deprecated merge is a known finding across kinds",
+            ("CrdtValue", "type_name") | ("CrdtValue", "is_lww") => "driven: A lines (type=, islww=)",
+            ("CrdtValue", "as_lww") | ("CrdtValue", "as_gcounter") | ("CrdtValue", "as_pncounter") | ("CrdtValue", "as_gset") | ("CrdtValue", "as_orset") | ("CrdtValue", "as_hash") => "driven: A lines read the value through it",
+            ("CrdtValue", "as_lww_mut") | ("CrdtValue", "as_hash_mut") => "mutable view: same match as the shared accessor; used by nothing in the crate",
+            ("CrdtValue", "as_gcounter_mut") | ("CrdtValue", "as_pncounter_mut") | ("CrdtValue", "as_gset_mut") | ("CrdtValue", "as_orset_mut") => "mutable view: same match as the shared accessor (the U lines mutate through the enum directly)",
+            ("ReplicatedValue", "new") | ("ReplicatedValue", "with_crdt") | ("ReplicatedValue", "with_value") => "driven: U new; with_value through record_write of every reachable pool",
+            ("ReplicatedValue", "with_replication_factor") | ("ReplicatedValue", "get_replication_factor") => "driven: U rf, A lines (rf=, rf3=)",
+            ("ReplicatedValue", "set") | ("ReplicatedValue", "delete") | ("ReplicatedValue", "hash_set") | ("ReplicatedValue", "hash_delete") => "driven: U set / del / hset / hdel on values of EVERY kind (type changes incl.), and through the shard ops of the reachable pools",
+            ("ReplicatedValue", "merge") => "driven: M lines + the three laws on the real values",
+            ("ReplicatedValue", "get") | ("ReplicatedValue", "is_tombstone") | ("ReplicatedValue", "crdt_type") | ("ReplicatedValue", "lww") | ("ReplicatedValue", "is_hash") | ("ReplicatedValue", "get_hash") | ("ReplicatedValue", "hash_get") => "driven: A lines",
+            ("ReplicatedValue", "crdt_mut") | ("ReplicatedValue", "lww_mut") | ("ReplicatedValue", "get_hash_mut") => "mutable views of the same fields",
+            _ => return None,
+        })
+    };
+    for (file, types) in files {
+        let Some(src) = read_src(file) else {
+            out.violation("C07:coverage:source-scan-failed", "an anchored source file could not be read from the tree the harness was built against", json!({"file": file, "tree": repo_dir()}));
+            continue;
+        };
+        let src = non_test(&src).to_string();
+        // kani / test sections of lattice.rs come after the library part
+        let src = match src.find("#[cfg(kani)]") { Some(i) => src[..i].to_string(), None => src };
+        let mut names: Vec<(String, String)> = Vec::new();
+        for ty in types.iter() {
+            for f in scan_pub_fns(&src, ty) {
+                names.push((ty.to_string(), f));
+            }
+        }
+        // trait impls: `impl<..> Trait for Type<..>`
+        for l in src.lines() {
+            if l.starts_with("impl") && l.contains(" for ") {
+                let head = l.split('{').next().unwrap_or("");
+                let toks: Vec<&str> = head.split(|c: char| !(c.is_alphanumeric() || c == '_')).filter(|s| !s.is_empty()).collect();
+                if let Some(p) = toks.iter().position(|t| *t == "for") {
+                    if let (Some(tr), Some(ty)) = (toks[..p].iter().rev().find(|t| t.chars().next().unwrap().is_uppercase() && t.len() > 1 && !["Clone", "Hash"].contains(t) || **t == "Eq"), toks.get(p + 1)) {
+                        names.push((ty.to_string(), tr.to_string()));
+                    }
+                }
+            }
+        }
+        if names.len() < types.len() * 2 {
+            out.violation("C07:coverage:source-scan-failed", "the source scan found implausibly few functions", json!({"file": file, "found": names.len()}));
+        }
+        for (ty, f) in names {
+            let key = format!("{}::{}", ty, f);
+            match how(&ty, &f) {
+                Some(h) => {
+                    table.insert(key, h.to_string());
+                }
+                None => {
+                    table.insert(key.clone(), "UNACCOUNTED".into());
+                    out.violation(&format!("C07:coverage:fn-not-driven:{}", key), "a public function / trait impl of the replicated value lattice exists in the source the harness was built against, but the harness neither drives it nor says why not", json!({"name": key, "file": file}));
+                }
+            }
+        }
+    }
+    out.extra.insert("api_coverage(derived from lattice.rs, crdt_value.rs, replicated_value.rs)".into(), json!(table));
+}
+
+/// the deprecated merge across kinds (known finding, must be re-found on every run)
+#[allow(deprecated)]
+fn witness_deprecated_merge(out: &mut Out) {
+    let a = ReplicatedValue::with_value(SDS::from_str("v"), LamportClock { time: 1, replica_id: ReplicaId(1) });
+    let mut g = GCounter::new();
+    g.increment(ReplicaId(1));
+    let b = ReplicatedValue::with_crdt(CrdtValue::GCounter(g), ReplicaId(2));
+    let (d1, d2) = (show_crdt(&a.crdt.merge(&b.crdt)), show_crdt(&b.crdt.merge(&a.crdt)));
+    if d1 != d2 {
+        out.violation("C07:comm:deprecated-crdt-merge:cross-kind", "the deprecated CrdtValue::merge(a,b) != merge(b,a) (on a type mismatch it keeps self)", json!({"a": MRv::from_real(&a).show(), "b": MRv::from_real(&b).show(), "merge(a,b)": d1, "merge(b,a)": d2}));
+    }
+}
+
+
+/// the coverage self-audit of C07 against the eleven classes (DESIGN.md §4 C07)
+fn audit() -> serde_json::Value {
+    json!([
+      {"class": 1, "topic": "entry path / variant never driven",
+       "covered": "every pub fn and trait impl (PartialEq, Ord, Default) of lattice.rs, crdt_value.rs, replicated_value.rs is enumerated from the source the binary was built against and accounted for (C07:coverage:fn-not-driven:*): the stand-alone merge of every lattice, try_merge / merge_with_timestamps / the deprecated merge, vector-clock comparison, LamportClock merge / update / tick / cmp, the mutators of counters and sets, set / delete / hash_set / hash_delete on values of every kind, every constructor, every accessor. Before: only ReplicatedValue::merge was called (59 % / 41 % of the lines of lattice.rs / crdt_value.rs never ran)",
+       "open": "the *_mut accessors are the same match as their shared twins; verify_invariants is empty in release builds"},
+      {"class": 2, "topic": "input alphabet",
+       "covered": "payloads empty / binary / random up to 40 bytes; set elements and hash fields incl. non-ASCII and the empty field name; zero entries in counters and vector clocks; tombstones with and without value; all six kinds in every operand position; values built through the public API, by local ops + delivery on real shards, structurally with colliding stamps, and by merging merges",
+       "open": ""},
+      {"class": 3, "topic": "comparison at equality",
+       "covered": "equal full stamps, equal times from different replicas, equal counts, equal / dominated / disjoint vector clocks, cmp on equal clocks, an element added twice, a removal of tags the set does not hold",
+       "open": ""},
+      {"class": 4, "topic": "configuration", "covered": "n/a: no function of the three files reads configuration", "open": ""},
+      {"class": 5, "topic": "capacity thresholds", "covered": "n/a: no internal limit",
+       "open": "u64 overflow of counter increments / totals and the `as i64` of PNCounter::value are outside the Nat model (listed assumption); the Lamport time's boundary is C08's (known finding C08:clock:u64-overflow)"},
+      {"class": 6, "topic": "fault kinds", "covered": "try_merge's Err (both type names compared); a mirror that cannot read a value back is a named case (…:mirror:shape-changed)", "open": "no I/O in scope"},
+      {"class": 7, "topic": "history shapes", "covered": "values reached by 5..30 local ops with reordered / duplicated / lost deliveries, nested merges fed back into the pool, removal-then-state-merge on OR-sets (counted: the element comes back)", "open": ""},
+      {"class": 8, "topic": "node-global state", "covered": "n/a (pure functions); next_sequence of an OR-set is carried through merges and compared", "open": ""},
+      {"class": 9, "topic": "observations",
+       "covered": "the full value (crdt, vector clock, expiry, stamp, rf) AND every public accessor of every operand and result (A lines: get, is_tombstone, crdt_type, is_lww, is_hash, lww, get_hash, hash_get, get_replica_count, value, is_empty, contains, len, get_tags, VectorClock::get, get_replication_factor); the three laws are evaluated on the values and once more through the accessors; Lean: obs_all_idem / comm / assoc_partial",
+       "open": ""},
+      {"class": 10, "topic": "finding signatures", "covered": "C07:assoc:cross-kind:crdt (kinds mixed, field 'crdt' differs) and C07:comm:deprecated-crdt-merge:cross-kind (only across kinds: the same-kind variant is a violation) are disjoint from every other failure of the laws", "open": ""},
+      {"class": 11, "topic": "harness fragility", "covered": "the function list comes from the source the binary was built against; a failed or implausibly short scan is a violation; a value the mirror cannot read is a named case, not a panic", "open": ""}
+    ])
+}
+
 pub fn run(a: &Args) {
     let mut out = Out::new(&a.out);
     let mut rng = Rng::new(a.seed);
+    coverage(&mut out);
     witness_cross_kind(&mut out);
+    witness_deprecated_merge(&mut out);
     let mut done = 0u64;
     while done < a.n {
         // one pool per round
@@ -313,6 +803,7 @@ pub fn run(a: &Args) {
         for _ in 0..4 {
             pool.push((api_crdt_value(&mut rng), "crdt-api"));
         }
+        lattice_api(&mut out, &mut rng, &pool);
         let rounds = 12;
         for _ in 0..rounds {
             let mode = rng.below(4);
@@ -338,5 +829,6 @@ pub fn run(a: &Args) {
             }
         }
     }
+    out.extra.insert("audit".into(), audit());
     out.finish("case = triple (a,b,c) of real ReplicatedValues drawn from (i) values produced by random local ops + random delta delivery on real ShardReplicaStates, (ii) structured random values with colliding stamps, (iii) counters/sets built through the CRDT API, (iv) merges of those; distinct by canonical text of the triple; non-trivial iff a != b and merge(a,b) differs from a or from b");
 }
